@@ -22,6 +22,8 @@ type arithTr struct {
 	consts map[string]int64
 	funcs  map[string]string // result type of the functions translated
 	types  map[string]string // variable -> "u32" | "u64"
+	elems  map[string]string // "ks[0]" -> name of the parameter that stands for it
+	tables map[string]string // package-level lookup table -> element type
 	bad    bool
 }
 
@@ -44,7 +46,7 @@ func (tr *arithTr) expr(e ast.Expr) (string, string) {
 		return tr.expr(x.X)
 	case *ast.BasicLit:
 		if x.Kind == token.INT {
-			if v, err := strconv.ParseInt(x.Value, 0, 64); err == nil {
+			if v, err := strconv.ParseUint(x.Value, 0, 64); err == nil {
 				return fmt.Sprint(v), ""
 			}
 		}
@@ -54,6 +56,23 @@ func (tr *arithTr) expr(e ast.Expr) (string, string) {
 		}
 		if v, ok := tr.consts[x.Name]; ok {
 			return fmt.Sprint(v), ""
+		}
+	case *ast.IndexExpr:
+		// ks[0] -> a parameter named by tr.elems; spe[K][IDX] -> a lookup in the regenerated table of that name
+		if id, ok := x.X.(*ast.Ident); ok {
+			if bl, ok := x.Index.(*ast.BasicLit); ok {
+				if nm, ok := tr.elems[id.Name+"["+bl.Value+"]"]; ok {
+					return nm, tr.types[nm]
+				}
+			}
+		}
+		if in, ok := x.X.(*ast.IndexExpr); ok {
+			if id, ok := in.X.(*ast.Ident); ok && tr.tables[id.Name] != "" {
+				if bl, ok := in.Index.(*ast.BasicLit); ok && bl.Kind == token.INT {
+					idx, _ := tr.expr(x.Index)
+					return fmt.Sprintf("(nthz (nth %s %s []) %s)", bl.Value, id.Name, idx), tr.tables[id.Name]
+				}
+			}
 		}
 	case *ast.CallExpr:
 		if t := tr.typeName(x.Fun); t != "" && len(x.Args) == 1 {
@@ -199,11 +218,16 @@ func (tr *arithTr) stmts(list []ast.Stmt, tail string, top bool, ind string) str
 				}
 			default:
 				op := map[token.Token]string{token.ADD_ASSIGN: "+", token.SUB_ASSIGN: "-", token.MUL_ASSIGN: "*"}[x.Tok]
+				bit := map[token.Token]string{token.XOR_ASSIGN: "Z.lxor", token.OR_ASSIGN: "Z.lor", token.AND_ASSIGN: "Z.land"}[x.Tok]
 				w := tr.types[id.Name]
-				if op == "" || w == "" || len(x.Lhs) != 1 {
+				if (op == "" && bit == "") || w == "" || len(x.Lhs) != 1 {
 					tr.bad = true
 				}
-				v = fmt.Sprintf("(%s (%s %s %s))", w, id.Name, op, v)
+				if bit != "" {
+					v = fmt.Sprintf("(%s %s %s)", bit, id.Name, v)
+				} else {
+					v = fmt.Sprintf("(%s (%s %s %s))", w, id.Name, op, v)
+				}
 			}
 			names = append(names, id.Name)
 			vals = append(vals, v)
